@@ -49,12 +49,18 @@ def build(rng: random.Random, with_pdo: bool):
             for sub in sorted(rng.sample(range(0, 12), rng.randrange(1, 5))):
                 mkvar(f"M{idx:X}_{sub}", idx, sub, c)
     if with_pdo:
-        for base, mbase, cob in ((0x1400, 0x1600, 0x200), (0x1800, 0x1A00, 0x180)):
+        # any number of RPDOs and TPDOs (not necessarily as many of the one as of the other)
+        pdos = [(0x1400 + k, 0x1600 + k, 0x200 + 0x100 * k) for k in range(rng.randrange(1, 4))] + \
+               [(0x1800 + k, 0x1A00 + k, 0x180 + 0x100 * k) for k in range(rng.randrange(1, 4))]
+        configured = rng.random() < 0.6       # the values come from a DCF (ParameterValue), not only from defaults
+        for base, mbase, cob in pdos:
             com = ODRecord(f"com{base:X}", base)
             od.add_object(com)
             for sub, dt, dv in ((0, 0x5, 2), (1, 0x7, cob + 5), (2, 0x5, 255)):
                 v = ODVariable(f"c{sub}", base, sub)
                 v.data_type, v.default, v.access_type = dt, dv, "rw"
+                if configured:
+                    v.value = dv
                 com.add_member(v)
             mp = ODArray(f"map{mbase:X}", mbase)
             od.add_object(mp)
@@ -62,6 +68,8 @@ def build(rng: random.Random, with_pdo: bool):
                 v = ODVariable(f"m{sub}", mbase, sub)
                 v.data_type, v.access_type = (0x5 if sub == 0 else 0x7), "rw"
                 v.default = 1 if sub == 0 else (0x20000010 if sub == 1 else 0)
+                if configured:
+                    v.value = v.default
                 mp.add_member(v)
         v = ODVariable("mapped", 0x2000, 0)
         v.data_type, v.access_type = 0x6, "rw"
